@@ -216,6 +216,11 @@ def m_len(ip, callee, args):
         ts = [q for q in s.parts if not isinstance(q, str)]
         return T("(+ %d %s)", 'Int', n, " ".join("(str.len %s)" % q.s for q in ts))
     return T("(str.len %s)", 'Int', s.s)
+def _maybe_empty_part(ip, q):
+    """a symbolic part that is empty exposes its neighbour to trimming: branch on emptiness (True = it is empty)"""
+    n = known_len(ip, q)
+    if n is not None: return n == 0
+    return ip.branch(T('(= %s "")', 'Bool', smt_str(q)))
 def _strip_suffix_char(ip, s, ch, limit=3):
     """remove trailing occurrences of 1-char string ch (at most `limit` symbolic ones: stated bound)"""
     parts = list(parts_of(s)); n = 0
@@ -225,9 +230,13 @@ def _strip_suffix_char(ip, s, ch, limit=3):
             q2 = q.rstrip(ch)
             if q2: parts[-1] = q2; break
             parts.pop(); continue
-        if cannot_contain(ip, q, ch): break
+        if cannot_contain(ip, q, ch):
+            if _maybe_empty_part(ip, q): parts.pop(); continue
+            break
         has = ip.branch(T("(str.suffixof %s %s)", 'Bool', smt_str(ch), smt_str(q)))
-        if not has: break
+        if not has:
+            if _maybe_empty_part(ip, q): parts.pop(); continue
+            break
         if n >= limit: m_assume(ip, '', [False])
         r = ip.fresh('String', 'trim', record=False); ip.solver.add("(= %s (str.++ %s %s))" % (q.s, r.s, smt_str(ch))); inherit_facts(ip, q, r)
         n += 1
@@ -242,9 +251,13 @@ def _strip_prefix_char(ip, s, ch, limit=3):
             q2 = q.lstrip(ch)
             if q2: parts[0] = q2; break
             parts.pop(0); continue
-        if cannot_contain(ip, q, ch): break
+        if cannot_contain(ip, q, ch):
+            if _maybe_empty_part(ip, q): parts.pop(0); continue
+            break
         has = ip.branch(T("(str.prefixof %s %s)", 'Bool', smt_str(ch), smt_str(q)))
-        if not has: break
+        if not has:
+            if _maybe_empty_part(ip, q): parts.pop(0); continue
+            break
         if n >= limit: m_assume(ip, '', [False])
         r = ip.fresh('String', 'trim', record=False); ip.solver.add("(= %s (str.++ %s %s))" % (q.s, smt_str(ch), r.s)); inherit_facts(ip, q, r)
         n += 1
